@@ -237,7 +237,7 @@ def build(self):
 '''
 
 
-@rule("FT15", ["C07", "C06", "C08"], "constraint blocks are elaborated per instance from the instance's own attribute list; no run-time memo on the class read through inheritance",
+@rule("FT15", ["C07", "C06", "C08", "C17"], "constraint blocks are elaborated per instance from the instance's own attribute list; no run-time memo on the class read through inheritance",
       engine="XS", floor=3)
 def ft15(prog, rr):
     # self-check of the detector on a positive example (the expected count on the tree is zero)
@@ -701,7 +701,7 @@ def rs11(prog, rr):
 
 
 # --------------------------------------------------------------------------------------- FT18
-@rule("FT18", ["C18"], "part-select write keeps the bits outside the mask and replaces those inside; read and write use the same mask", engine="DF", floor=3)
+@rule("FT18", ["C18"], "part-select write keeps the bits outside the mask and replaces those inside; read and write use the same mask", engine="DF", floor=2)
 def ft18(prog, rr):
     tb = prog.cls("type_base")
     st_, gt_ = tb.methods.get("__setitem__"), tb.methods.get("__getitem__")
